@@ -355,7 +355,10 @@ void ExpressionBuilder::expr_call_end(uint32_t n)
             break;
         }
         if (expr.size() - 1 != id.get_type().size()) {
+            // with too many arguments there is no array dimension left to index
             handle_error(TypeException{"$Wrong_number_of_arguments"});
+            e = make_constant(0);
+            break;
         }
         instance = static_cast<instance_t*>(id.get_symbol().get_data());
 
